@@ -106,6 +106,32 @@ def prove(run, only=None):
                 for bi in range(nb):
                     idents.append((f"post:TTNS.calc_1dof_rdm:partial_trace[{bi}]", "TTNS.calc_1dof_rdm",
                                    (lambda bi_: lambda a_, b_, H_, K: (np.asarray(a_.calc_1dof_rdm()[order[bi_].dofs[0]]), K.rdm(dn(a_), dims, [bi_])))(bi)))
+                # site and pair RDMs (polynomial in the tensors: exact), in the order of the key: ket indices of the first site / dof, then of the second, then the bra indices
+                phys = [ni for ni, node in enumerate(bt.node_list) if any(type(bb).__name__ != "BasisDummy" for bb in node.basis_sets)]
+
+                def nsites(ni):
+                    return [order.index(bb) for bb in bt.node_list[ni].basis_sets if type(bb).__name__ != "BasisDummy"]
+
+                def flat_rdm(x, d):
+                    return np.asarray(x, dtype=object).reshape(d, d) if not isinstance(x, np.ndarray) or x.dtype == object else np.asarray(x).reshape(d, d)
+                for ni in phys:
+                    d_ = int(np.prod([dims[s_] for s_ in nsites(ni)]))
+                    idents.append((f"post:TTNS.calc_1site_rdm:partial_trace[node{ni}]", "TTNS.calc_1site_rdm",
+                                   (lambda ni_, d__: lambda a_, b_, H_, K: (flat_rdm(a_.calc_1site_rdm(ni_)[ni_], d__), K.rdm(dn(a_), dims, nsites(ni_))))(ni, d_)))
+                npairs = [(i_, j_) for i_ in phys for j_ in phys if i_ != j_]
+                npairs = npairs[:3] + npairs[-2:] if len(npairs) > 5 else npairs
+                for (i_, j_) in dict.fromkeys(npairs):
+                    d_ = int(np.prod([dims[s_] for s_ in nsites(i_) + nsites(j_)]))
+                    idents.append((f"post:TTNS.calc_2site_rdm:partial_trace[nodes{i_},{j_}]", "TTNS.calc_2site_rdm",
+                                   (lambda i__, j__, d__: lambda a_, b_, H_, K: (flat_rdm(a_.calc_2site_rdm((i__, j__))[(i__, j__)], d__),
+                                                                                K.rdm(dn(a_), dims, nsites(i__) + nsites(j__))))(i_, j_, d_)))
+                dpairs = [(i_, j_) for i_ in range(nb) for j_ in range(nb) if i_ != j_]
+                dpairs = dpairs[:3] + dpairs[-2:] if len(dpairs) > 5 else dpairs
+                for (i_, j_) in dict.fromkeys(dpairs):
+                    d_ = dims[i_] * dims[j_]
+                    idents.append((f"post:TTNS.calc_2dof_rdm:partial_trace[dofs{i_},{j_}]", "TTNS.calc_2dof_rdm",
+                                   (lambda i__, j__, d__: lambda a_, b_, H_, K: (flat_rdm(a_.calc_2dof_rdm((order[i__].dofs[0], order[j__].dofs[0]))[(order[i__].dofs[0], order[j__].dofs[0])], d__),
+                                                                                K.rdm(dn(a_), dims, [i__, j__])))(i_, j_, d_)))
                 a0c, b0c = complexify(a0, rng), complexify(b0, rng)
 
                 def native(fun):
